@@ -886,7 +886,15 @@ func replayFailure(cfg *runConfig, r *OblResult) (path string, confirmed bool, n
 	}
 	// hand-written scenario registered for this clause: exercises the defect class on the real code
 	if r.O.Clause != nil && r.O.Gen.con != nil && r.O.Gen.con.Scenarios != nil {
-		if sc, ok := r.O.Gen.con.Scenarios[r.O.Clause.Label]; ok {
+		lab := r.O.Clause.Label
+		sc, ok := r.O.Gen.con.Scenarios[lab]
+		if !ok {
+			// part k of a split clause: label.k
+			if i := strings.LastIndex(lab, "."); i > 0 {
+				sc, ok = r.O.Gen.con.Scenarios[lab[:i]]
+			}
+		}
+		if ok {
 			ok2, n := runScenario(r.O, sc, rec)
 			rec.Confirmed = ok2
 			rec.Note = n
